@@ -13,8 +13,8 @@ CONSTANTS CheckFrame,  \* TRUE: also demand the frame condition (inputs untouche
 
 Trace == ndJsonDeserialize("trace.ndjson")
 
-VARIABLE l
-tvars == <<reg, mode, rlk, l>>
+VARIABLES l, ckpt      \* position in the trace; a saved register file (Save / Restore events)
+tvars == <<reg, mode, rlk, l, ckpt>>
 
 Ev == Trace[l]
 
@@ -68,12 +68,17 @@ TraceReset ==
     /\ Ev.op = "Reset"
     /\ Reset(Ev.mode, Ev.rlk)
 
+\* the driver checkpoints the register file and tries many single calls from it
+TraceSave    == Ev.op = "Save" /\ ckpt' = reg /\ UNCHANGED <<reg, mode, rlk>>
+TraceRestore == Ev.op = "Restore" /\ reg' = ckpt /\ UNCHANGED <<mode, rlk, ckpt>>
+
 TraceNext ==
     /\ l <= Len(Trace)
     /\ l' = l + 1
-    /\ (TraceCall \/ TraceLoad \/ TraceDrop \/ TraceMatch \/ TraceReset \/ TraceSkip)
+    /\ \/ (TraceCall \/ TraceLoad \/ TraceDrop \/ TraceMatch \/ TraceReset \/ TraceSkip) /\ UNCHANGED ckpt
+       \/ TraceSave \/ TraceRestore
 
-TraceInit == Init /\ l = 1 /\ TLCSet(1, 1)
+TraceInit == Init /\ l = 1 /\ ckpt = reg /\ TLCSet(1, 1)
 TraceSpec == TraceInit /\ [][TraceNext]_tvars
 
 \* high-water mark of consumed lines (register 1), for locating a rejection
